@@ -27,7 +27,8 @@ VARIABLES tool,          \* "main" | "smoke"
           input,         \* class of the input: [argDefect, parses, cache]
           stage,         \* the next stage in program order; "Exit" = about to leave; "Done" = terminated
           phase,         \* translate: index in Phases of the last phase run (0 = none)
-          failed,        \* "no" | "oneliner" | "report": how the run has decided to fail
+          failed,        \* "no" | "oneliner" | "report" | "unknown": how the run has decided to fail
+                         \* ("unknown": seen only through a composite return, Strict = FALSE)
           pending,       \* a report still has to be written
           errs,          \* errors found so far by components: set of [st |-> stage, id |-> id]
           reported,      \* ids of the errors written to stderr
@@ -262,13 +263,17 @@ CsReport ==
 
 \* run.write_error_report: headline, then one bulleted entry per element of `entries`
 \* (entries[i] = number of indented continuation lines of entry i)
+\* Loose: the call itself may be the first sign of the failure (a failing write, a malformed snippet, ...)
 Report(entries) ==
-    /\ pending /\ stage = "Exit"
+    /\ IF Strict THEN pending /\ stage = "Exit"
+                 ELSE stage # "Done" /\ (pending \/ failed = "no")
     /\ Len(entries) >= 1
     /\ Emit(ReportLines(entries))
     /\ reported' = IdsOf(errs)
     /\ pending' = FALSE
-    /\ UNCHANGED <<tool, input, stage, phase, failed, errs, stdoutTail, rc, wrote, comp>>
+    /\ failed' = IF failed \in {"no", "unknown"} THEN "report" ELSE failed
+    /\ stage' = "Exit"
+    /\ UNCHANGED <<tool, input, phase, errs, stdoutTail, rc, wrote, comp>>
 
 \* Strict: only from stage "Exit", after the pending report has been written.
 \* Loose: a report whose writing was not observed is assumed written (composite step), and a run that
@@ -284,7 +289,8 @@ Exit ==
     /\ IF Strict THEN stage = "Exit" /\ ~pending
                  ELSE failed # "no" \/ (FrontEndPassed /\ errs = {})
     /\ IF pending
-       THEN Emit(ReportLines(<<0>>)) /\ reported' = IdsOf(errs)
+       THEN /\ Emit(IF failed = "unknown" THEN <<"other">> ELSE ReportLines(<<0>>))
+            /\ reported' = IdsOf(errs)
        ELSE UNCHANGED out
     /\ pending' = FALSE
     /\ rc' = IF failed = "no" THEN 0 ELSE 1
@@ -304,7 +310,7 @@ LoadModelReturn(accepted) ==
             /\ CanSkipTo("TargetVerify")
             /\ stage' = "TargetVerify"
             /\ UNCHANGED <<failed, pending>>
-       ELSE /\ failed' = IF failed = "no" THEN "report" ELSE failed
+       ELSE /\ failed' = IF failed = "no" THEN "unknown" ELSE failed
             /\ pending' = IF failed = "no" THEN TRUE ELSE pending
             /\ Rank(tool, stage) <= Rank(tool, "TargetVerify") \/ stage = "Exit"
             /\ stage' = "Exit"
@@ -318,7 +324,7 @@ TargetReturn(r) ==
        THEN /\ failed = "no" /\ errs = {} /\ CanSkipTo("Exit")
             /\ stdoutTail' = "generated" /\ wrote' = wrote \cup {"output"}
             /\ UNCHANGED <<failed, pending>>
-       ELSE /\ failed' = IF failed = "no" THEN "report" ELSE failed
+       ELSE /\ failed' = IF failed = "no" THEN "unknown" ELSE failed
             /\ pending' = IF failed = "no" THEN TRUE ELSE pending
             /\ UNCHANGED <<stdoutTail, wrote>>
     /\ stage' = "Exit"
@@ -364,7 +370,7 @@ TypeOK ==
     /\ tool \in Tools /\ input \in Inputs
     /\ \E i \in 1..Len(StagesOf(tool)) : StagesOf(tool)[i] = stage
     /\ phase \in 0..NPhases
-    /\ failed \in {"no", "oneliner", "report"} /\ pending \in BOOLEAN
+    /\ failed \in {"no", "oneliner", "report", "unknown"} /\ pending \in BOOLEAN
     /\ reported \subseteq IdsOf(errs)
     /\ lex \in LexStates
     /\ stdoutTail \in {"none", "generated"}
@@ -402,6 +408,8 @@ SmokeFailureHasShape == Done /\ tool = "smoke" /\ (\E c \in SmokeComponents : co
 OutputOnlyWithModel == "output" \in wrote => ErrsAt(FrontEndStages \cup {"ReadSnippets"}) = {}
 CacheOnlyOnMiss == "cache" \in wrote => input.cache = "miss" /\ (Strict => ErrsAt(FrontEndStages) = {})
 SuccessWrites == Done /\ rc = 0 /\ tool = "main" /\ Strict => "output" \in wrote
+\* state constraint for the quick tier of the loose model check: at most two errors outstanding
+ErrBound == Cardinality(errs) <= 2
 \* liveness: every run terminates (Strict)
 Termination == <>Done
 =============================================================================
